@@ -21,6 +21,7 @@ static const char CAND[5][8] = {"x.h", "inc/x.h", "d1/x.h", "d2/x.h", "d3/x.h"};
 static const unsigned CLEN[5] = {3, 7, 6, 6, 6};
 static const char DIRS[3][4] = {"d1", "d2", "d3"};
 static bool fs_exists[NCAND];
+static unsigned sym_bits;     // one symbolic word: bit i = existence of candidate i wherever it is not fixed by the configuration
 static int fs_unexpected;
 
 // cut point: the only file-system query find_include makes
@@ -48,7 +49,7 @@ static void __attribute__((noinline)) run_config(CPPPreprocessor *pp, int kinds,
     for (int j = 0; j < nlist; j++) if (list[j] == i) pos = j;
     if (pos >= 0 && pos < firstpos) fs_exists[i] = false;
     else if (pos >= 0 && pos == firstpos) fs_exists[i] = true;
-    else fs_exists[i] = nondet_bool();
+    else fs_exists[i] = (sym_bits >> i) & 1;
   }
 #ifdef CWD_EXISTS
   fs_exists[0] = true;
@@ -75,6 +76,7 @@ static void __attribute__((noinline)) run_config(CPPPreprocessor *pp, int kinds,
 
 extern "C" void harness_c17_find_include() {
   const int kinds = KINDS;
+  sym_bits = nondet_uint();
   CPPPreprocessor *pp = new CPPPreprocessor;
   // as interrogate.cxx / parse_file.cxx set the paths up from the command line
   for (int i = 0; i < NDIRS; i++) {
